@@ -114,33 +114,92 @@ func ruleOpMargin(c *Ctx, r *Report, prefix string) {
 	// (2) the closing of the range coder: K shiftLow calls in a counted loop
 	closeK := int64(-1)
 	{
-		// the number of shiftLow calls on the successful path of Close (a counted loop in either
-		// direction, or unrolled)
-		spec := SeqSpec{Fn: closeF, NoMerge: true}
-		spec.Event = func(w *Walker, p *PState, ins ssa.Instruction) string {
-			if _, isC := callTo(ins, shiftLow); isC {
-				return "shiftLow"
-			}
-			return ""
-		}
-		spec.Assume = func(w *Walker, p *PState, ins ssa.Instruction) {
-			// follow the path on which every shiftLow succeeds
-			if call, isC := callTo(ins, shiftLow); isC {
-				p.AssumeNil(call)
-			}
-		}
-		paths, over := CollectPaths(c, spec)
-		if !over {
-			for _, sp := range paths {
-				if sp.ErrNil || (!sp.ErrNonNil && !sp.Panic) {
-					k := int64(0)
-					for _, l := range sp.Labels() {
-						if l == "shiftLow" {
-							k++
+		// trip count of the counted loop around the one shiftLow call (either direction), or the
+		// number of calls when the loop was unrolled
+		nCalls := int64(0)
+		inLoop := false
+		for _, b := range c.GB(closeF) {
+			for _, ins := range b.Instrs {
+				if _, isC := callTo(ins, shiftLow); isC {
+					nCalls++
+					if b.Parent() == closeF {
+						for _, hb := range closeF.Blocks {
+							// b lies in a cycle through hb?
+							if hb.Dominates(b) {
+								for _, pr := range hb.Preds {
+									if b == pr || b.Dominates(pr) {
+										inLoop = true
+									}
+								}
+							}
 						}
 					}
-					if k > closeK {
-						closeK = k
+				}
+			}
+		}
+		if nCalls >= 1 && !inLoop {
+			closeK = nCalls
+		} else if nCalls == 1 {
+			for _, b := range closeF.Blocks {
+				for _, ins := range b.Instrs {
+					ph, isPhi := ins.(*ssa.Phi)
+					if !isPhi || len(ph.Edges) != 2 {
+						continue
+					}
+					var init, step int64
+					okInit, okStep := false, false
+					for _, e := range ph.Edges {
+						if k, isK := constInt(e); isK {
+							init, okInit = k, true
+						} else if bo, isB := e.(*ssa.BinOp); isB && (bo.Op == token.ADD || bo.Op == token.SUB) && bo.X == ssa.Value(ph) {
+							if k, isK := constInt(bo.Y); isK {
+								step, okStep = k, true
+								if bo.Op == token.SUB {
+									step = -k
+								}
+							}
+						}
+					}
+					if !okInit || !okStep || step == 0 {
+						continue
+					}
+					// the comparison that keeps the loop running
+					for _, ref := range *ph.Referrers() {
+						bo, isB := ref.(*ssa.BinOp)
+						if !isB || !isCmp(bo.Op) {
+							continue
+						}
+						op := bo.Op
+						var lim int64
+						if k, isK := constInt(bo.Y); isK && bo.X == ssa.Value(ph) {
+							lim = k
+						} else if k, isK := constInt(bo.X); isK && bo.Y == ssa.Value(ph) {
+							lim, op = k, flipOp(op)
+						} else {
+							continue
+						}
+						holds := func(v int64) bool {
+							switch op {
+							case token.LSS:
+								return v < lim
+							case token.LEQ:
+								return v <= lim
+							case token.GTR:
+								return v > lim
+							case token.GEQ:
+								return v >= lim
+							case token.NEQ:
+								return v != lim
+							}
+							return false
+						}
+						cnt := int64(0)
+						for v := init; holds(v) && cnt < 64; v += step {
+							cnt++
+						}
+						if cnt > 0 && cnt < 64 {
+							closeK = cnt
+						}
 					}
 				}
 			}
